@@ -339,11 +339,17 @@ func GroupByIWithContext[T any, K comparable](iteratee func(ctx context.Context,
 			groups := sync.Map{}
 			i := int64(0)
 
-			notifyAll := func(cb func(Observer[T])) {
+			takeGroups := func() []Observer[T] {
+				current := []Observer[T]{}
+
 				groups.Range(func(key, value any) bool {
-					cb(value.(Observer[T])) //nolint:errcheck,forcetypeassert
+					current = append(current, value.(Observer[T])) //nolint:errcheck,forcetypeassert
 					return true
 				})
+
+				groups = sync.Map{}
+
+				return current
 			}
 
 			sub := source.SubscribeWithContext(
@@ -364,25 +370,34 @@ func GroupByIWithContext[T any, K comparable](iteratee func(ctx context.Context,
 						}
 					},
 					func(ctx context.Context, err error) {
-						destination.ErrorWithContext(ctx, err)
-						notifyAll(func(o Observer[T]) { o.ErrorWithContext(ctx, err) })
+						// Detach the groups first: the terminal notification sent to destination runs the
+						// teardown below, which would otherwise complete the groups before they get the error.
+						current := takeGroups()
 
-						groups = sync.Map{}
+						destination.ErrorWithContext(ctx, err)
+
+						for _, o := range current {
+							o.ErrorWithContext(ctx, err)
+						}
 					},
 					func(ctx context.Context) {
-						destination.CompleteWithContext(ctx)
-						notifyAll(func(o Observer[T]) { o.CompleteWithContext(ctx) })
+						current := takeGroups()
 
-						groups = sync.Map{}
+						destination.CompleteWithContext(ctx)
+
+						for _, o := range current {
+							o.CompleteWithContext(ctx)
+						}
 					},
 				),
 			)
 
 			return func() {
 				sub.Unsubscribe()
-				notifyAll(func(o Observer[T]) { o.CompleteWithContext(context.TODO()) })
 
-				groups = sync.Map{}
+				for _, o := range takeGroups() {
+					o.CompleteWithContext(context.TODO())
+				}
 			}
 		})
 	}
